@@ -32,7 +32,7 @@ CHECKS = {
                 text="Theorems C05_inverse_l, C05_inverse_r, C05_gauge at full strength for every solution of the regenerated nonhermitian_alg in every BlockAlg (asymmetric masks included); C05_kept_partial / C05_eliminated_partial under the extra hypothesis that kept elements connect equal unperturbed energies - outside it the property is false on the unchanged tree (known finding C05-kept-distinct-energies, witness replayed each run). Coincidence with the Hermitian mode on Hermitian input: C05_hermitian_coincide_partial (Alg/Coincide.v, under [H_0, Sel x] = 0, i.e. the same class) + oracle.",
                 note=ALG_NOTE),
     "C06": dict(cat="proof", tech="Coq: naturality of the semantics (any program) + equivariance by uniqueness, C16_direct, C17; tied by correspondence k_implicit (implicit vs explicit embedded), k_greens, k_projector; partial",
-                text="C06_embedding_partial / C06_outputs_correspond_partial: any structure-preserving map between BlockAlgs intertwining the scopes maps solutions of the generated programs to solutions and (Hermitian mode) the three outputs correspond; with C16_direct (solver) and C17 (projector). Partial: the identification of the implicit block algebra with a corner algebra (unit diag(1,P)) is not formalised; KPM accuracy monitored only. Known finding C06-nh-implicit-fully-diagonalize (IndexError) replayed each run.",
+                text="C06_embedding_partial / C06_outputs_correspond_partial: any structure-preserving map between BlockAlgs intertwining the scopes maps solutions of the generated programs to solutions and (Hermitian mode) the three outputs correspond; with C16_direct (solver) and C17 (projector). C06_implicit_algebra / C06_implicit_similarity / C06_corner_outputs_correspond: the corner e T e (e = diag(1,P)) of a BlockAlg is a BlockAlg with product x e y and unit e, so C01/C02 hold for the implicit computation itself, and phi x = J x J^dagger (J = diag(1,Psi_B) a partial isometry) is a least-action morphism between the explicit and the implicit corner: outputs correspond. Partial: that the concrete matrices diag(1,P), diag(1,Psi_B) satisfy the corner equations in the algebra of series of matrices is assumed (checked numerically by k_implicit); non-Hermitian correspondence by harness; KPM accuracy monitored only. Known finding C06-nh-implicit-fully-diagonalize (IndexError) replayed each run.",
                 note=BASE_NOTE + "SuperLU/MUMPS and KPM results compared numerically (1e-9*scale, 100*atol)."),
     "C07": dict(cat="proof", tech="Coq: generic C01-C03 theorems + C08 (NOF homomorphism) + C16_scalar + C07_mask laws; decided on the implementation by the Fock-space oracle o_fock (operator-valued result vs truncated matrices); partial",
                 text="C07_mask_* (apply_mask_to_operator is an additive idempotent selection, keep/eliminate partition, commutes with adjoint and with functions of number operators), C08_* and C16_scalar on the NumberOrderedForm model, and the generic theorems C01/C02 for any BlockAlg. Partial: the BlockAlg instance over number-ordered forms and the band-locality argument (equality with TRUNCATED matrices away from the edge) are not formalised; that clause is decided by the oracle (Jordan-Wigner + Fock truncation, U†U=1 and U†HU=H_tilde on interior states).",
